@@ -127,6 +127,26 @@ class Hist:
                 self.record('get.%s.3' % c, ks, 'get_keys(3, change=%d)' % chg)
             except WalletError as e:
                 self.problems.append(('refused', self.rep(real_op='prelude', error=str(e)[:100])))
+        else:
+            # structured prelude (the other histories): keys of ANOTHER witness type created in bulk, then issued one by one
+            owt = rng.choice(other_wt)
+            chg = rng.choice([0, 1])
+            c = self.chain(owt, self.net, 0, chg)
+            try:
+                ks = w.new_keys(number_of_keys=rng.choice([3, 4]), change=chg, witness_type=owt)
+                self.record('new.%s.%d' % (c, len(ks)), ks, 'new_keys(%d, change=%d, witness_type=%s)' % (len(ks), chg, owt))
+                for _ in range(2):
+                    k = w.new_key(change=chg, witness_type=owt)
+                    self.record('new.%s.1' % c, [k], 'new_key(change=%d, witness_type=%s)' % (chg, owt))
+                ks = w.get_keys(number_of_keys=2, change=chg, witness_type=owt)
+                self.record('get.%s.2' % c, ks, 'get_keys(2, change=%d, witness_type=%s)' % (chg, owt))
+            except Exception as e:
+                from bitcoinlib.networks import NetworkError
+                from bitcoinlib.keys import BKeyError
+                if not isinstance(e, (WalletError, NetworkError, BKeyError)):
+                    raise
+                self.problems.append(('refused', self.rep(real_op='prelude %s' % owt, error=str(e)[:100])))
+                self.w.session.rollback()
         for step in range(self.nops):
             if self.problems and any(p[0] != 'refused' for p in self.problems):
                 break
